@@ -47,7 +47,7 @@ CHECKS = {
   note="Trusted: go/ssa lowering, interpreter (translator-validated), z3; bounded histories; LevelDB outside.",
   ref="DESIGN.md §3 C11"),
  "C13": dict(
-  text="Solver-decided, bounded: every native decoder entry point, run on a fully symbolic buffer of every length up to L and on valid encodings with an arbitrary 4-byte window (plus truncation), never panics, never allocates more than 65536 elements from an unread length field, and on success the declared counts are within the documented limits (lengths read from the wire are symbolic: make(n) forks into exact small lengths and a symbolic-length class); the protobuf serializer's Decode is run on generated structs with one arbitrary deviation each; longer inputs are covered by mostly-zero buffers (3 arbitrary bytes anywhere in up to 14 [24] zero bytes), sparse signatures with their full payload and big integers with declared lengths up to 255. Known findings F2b (unbounded 32-bit lengths in address maps/arrays and AuthResponse) and F3pb (unknown backend key in protobuf) are reported as KNOWN-FINDING; six genuine defects found this way were repaired by fix: commits.",
+  text="Solver-decided, bounded: every native decoder entry point, run on a fully symbolic buffer of every length up to L and on valid encodings with an arbitrary 4-byte window (plus truncation), never panics, never allocates more than 65536 elements from an unread length field, and on success the declared counts are within the documented limits (lengths read from the wire are symbolic: make(n) forks into exact small lengths and a symbolic-length class); the protobuf serializer's Decode is run on generated structs with one arbitrary deviation each; longer inputs are covered by mostly-zero buffers (3 arbitrary bytes anywhere in up to 14 zero bytes), sparse signatures with their full payload, big integers with declared lengths up to 255, and balance matrices / sub-allocations with one dimension at its limit or one above and every declared element present (success exactly within the limits). Known findings F2b (unbounded 32-bit lengths in address maps/arrays and AuthResponse) and F3pb (unknown backend key in protobuf) are reported as KNOWN-FINDING; six genuine defects found this way were repaired by fix: commits.",
   note="Trusted: go/ssa lowering, interpreter (translator-validated incl. native allocation proxy), z3; proto.Marshal/Unmarshal modelled by contract.",
   ref="DESIGN.md §3 C13"),
  "C14": dict(
